@@ -140,6 +140,7 @@ func newNamedStructDecoder(t reflect.Type, tag ...string) *structDecoder {
 	decoder.Lock()
 	defer decoder.Unlock()
 	registerNamedStructDecoder(t, decoder)
+	verifYield("structdec.published", t)
 	decoder.fields = getFieldMap(t, tag...)
 	return decoder
 }
